@@ -257,13 +257,30 @@ impl World {
         }
         true
     }
+    /// Despawn `e` and all of its descendants (iterative marking: no recursion, CBMC-friendly).
     pub(crate) fn despawn_recursive(&mut self, e: Entity) {
         if !self.entities.contains(e) { return; }
         let n = self.entities.slots().len();
+        let mut doomed: Vec<bool> = Vec::with_capacity(n);
+        let mut k = 0;
+        while k < n { doomed.push(k == e.index as usize); k += 1; }
+        // a descendant chain is at most n long
+        let mut pass = 0;
+        while pass < n {
+            let mut changed = false;
+            let mut k = 0;
+            while k < n {
+                let sl = self.entities.slots()[k];
+                if sl.alive && !doomed[k] { if let Some(p) = sl.parent { if doomed[p.index as usize] && self.entities.contains(p) { doomed[k] = true; changed = true; } } }
+                k += 1;
+            }
+            if !changed { break; }
+            pass += 1;
+        }
+        // children first (reverse index order is not required by the contract; descendants simply all go)
         let mut k = 0;
         while k < n {
-            let sl = self.entities.slots()[k];
-            if sl.alive && sl.parent == Some(e) { self.despawn_recursive(Entity { index: k as u32, generation: sl.generation }); }
+            if doomed[k] && k != e.index as usize { let g = self.entities.slots()[k].generation; self.despawn(Entity { index: k as u32, generation: g }); }
             k += 1;
         }
         self.despawn(e);
@@ -340,7 +357,7 @@ impl<'w, 's> Commands<'w, 's> {
     }
     pub fn spawn<B: Bundle>(&mut self, b: B) -> EntityCommands<'_> {
         let e = unsafe { (*self.entities).reserve_entity() };
-        self.queue(move |w: &mut World| { b.insert_into(w, e); });
+        self.queue(SpawnCommand { entity: e, bundle: b });
         EntityCommands { entity: e, commands: self.reborrow() }
     }
     pub fn get_entity(&mut self, e: Entity) -> Option<EntityCommands<'_>> {
@@ -350,6 +367,10 @@ impl<'w, 's> Commands<'w, 's> {
     pub fn insert_resource<R: Resource>(&mut self, r: R) { self.queue(move |w: &mut World| w.insert_resource(r)); }
     pub fn remove_resource<R: Resource>(&mut self) { self.queue(move |w: &mut World| { let _ = w.remove_resource::<R>(); }); }
 }
+
+/// `Commands::spawn` as a typed command (so that harnesses can read back what was spawned; applying = inserting the bundle).
+pub struct SpawnCommand<B: Bundle> { pub entity: Entity, pub bundle: B }
+impl<B: Bundle> Command for SpawnCommand<B> { fn apply(self, world: &mut World) { self.bundle.insert_into(world, self.entity); } }
 
 pub struct EntityCommands<'a> { entity: Entity, commands: Commands<'a, 'a> }
 impl<'a> EntityCommands<'a> {
@@ -644,11 +665,13 @@ unsafe impl SystemParam for Commands<'_, '_> {
 unsafe impl Send for CommandQueue {}
 
 // queries: only `get`/`get_mut`/`single`/`single_mut`/`contains` are provided.
-pub trait QueryData { type Item<'w>; type Comp: Component; type ReadOnly: ReadOnlyQueryData<Comp = Self::Comp>; unsafe fn fetch<'w>(world: *mut World, e: Entity) -> Option<Self::Item<'w>>; }
-impl<C: Component> QueryData for &C { type Item<'w> = &'w C; type Comp = C; type ReadOnly = Self; unsafe fn fetch<'w>(w: *mut World, e: Entity) -> Option<&'w C> { (*w).get::<C>(e) } }
-impl<C: Component> QueryData for &mut C { type Item<'w> = Mut<'w, C>; type Comp = C; type ReadOnly = &'static C; unsafe fn fetch<'w>(w: *mut World, e: Entity) -> Option<Mut<'w, C>> { (*w).get_mut::<C>(e) } }
-impl<C: Component> QueryData for (Entity, &C) { type Item<'w> = (Entity, &'w C); type Comp = C; type ReadOnly = Self; unsafe fn fetch<'w>(w: *mut World, e: Entity) -> Option<(Entity, &'w C)> { (*w).get::<C>(e).map(|c| (e, c)) } }
-impl<C: Component> QueryData for (Entity, &mut C) { type Item<'w> = (Entity, Mut<'w, C>); type Comp = C; type ReadOnly = (Entity, &'static C); unsafe fn fetch<'w>(w: *mut World, e: Entity) -> Option<(Entity, Mut<'w, C>)> { (*w).get_mut::<C>(e).map(|c| (e, c)) } }
+pub trait QueryData { type Item<'w>; type Comp: Component; type ReadOnly: ReadOnlyQueryData<Comp = Self::Comp>; unsafe fn fetch<'w>(world: *mut World, e: Entity) -> Option<Self::Item<'w>>;
+    /// Verification aid (`Query::verif_single`): the item for a component that lives outside any World.
+    unsafe fn from_ptr<'w>(p: *mut Self::Comp, e: Entity) -> Self::Item<'w>; }
+impl<C: Component> QueryData for &C { type Item<'w> = &'w C; type Comp = C; type ReadOnly = Self; unsafe fn fetch<'w>(w: *mut World, e: Entity) -> Option<&'w C> { (*w).get::<C>(e) } unsafe fn from_ptr<'w>(p: *mut C, _: Entity) -> &'w C { &*p } }
+impl<C: Component> QueryData for &mut C { type Item<'w> = Mut<'w, C>; type Comp = C; type ReadOnly = &'static C; unsafe fn fetch<'w>(w: *mut World, e: Entity) -> Option<Mut<'w, C>> { (*w).get_mut::<C>(e) } unsafe fn from_ptr<'w>(p: *mut C, _: Entity) -> Mut<'w, C> { Mut { value: &mut *p } } }
+impl<C: Component> QueryData for (Entity, &C) { type Item<'w> = (Entity, &'w C); type Comp = C; type ReadOnly = Self; unsafe fn fetch<'w>(w: *mut World, e: Entity) -> Option<(Entity, &'w C)> { (*w).get::<C>(e).map(|c| (e, c)) } unsafe fn from_ptr<'w>(p: *mut C, e: Entity) -> (Entity, &'w C) { (e, &*p) } }
+impl<C: Component> QueryData for (Entity, &mut C) { type Item<'w> = (Entity, Mut<'w, C>); type Comp = C; type ReadOnly = (Entity, &'static C); unsafe fn fetch<'w>(w: *mut World, e: Entity) -> Option<(Entity, Mut<'w, C>)> { (*w).get_mut::<C>(e).map(|c| (e, c)) } unsafe fn from_ptr<'w>(p: *mut C, e: Entity) -> (Entity, Mut<'w, C>) { (e, Mut { value: &mut *p }) } }
 pub trait ReadOnlyQueryData: QueryData {}
 pub struct NoComp; impl Component for NoComp {}
 impl<C: Component> ReadOnlyQueryData for &C {}
@@ -664,20 +687,31 @@ impl<'w, 's, F: QueryFilter> Query<'w, 's, (), F> {
         w.entities.slots().iter().enumerate().filter(move |(i, s)| s.alive && F::matches(w, Entity { index: *i as u32, generation: s.generation })).map(|_| ())
     }
 }
-impl QueryData for () { type Item<'w> = (); type Comp = NoComp; type ReadOnly = (); unsafe fn fetch<'w>(_: *mut World, _: Entity) -> Option<Self::Item<'w>> { Some(()) } }
+impl QueryData for () { type Item<'w> = (); type Comp = NoComp; type ReadOnly = (); unsafe fn fetch<'w>(_: *mut World, _: Entity) -> Option<Self::Item<'w>> { Some(()) } unsafe fn from_ptr<'w>(_: *mut NoComp, _: Entity) -> Self::Item<'w> {} }
 impl ReadOnlyQueryData for () {}
-pub struct Query<'w, 's, D: QueryData, F = ()> { world: *mut World, _p: PhantomData<(&'w (), &'s (), D, F)> }
+pub struct Query<'w, 's, D: QueryData, F = ()> { world: *mut World, single: Option<(Entity, *mut D::Comp)>, _p: PhantomData<(&'w (), &'s (), D, F)> }
 unsafe impl<D: QueryData, F> Send for Query<'_, '_, D, F> {}
 unsafe impl<D: QueryData, F> Sync for Query<'_, '_, D, F> {}
 impl<'w, 's, D: QueryData, F> Query<'w, 's, D, F> {
-    #[doc(hidden)] pub fn verif_new(world: &'w mut World) -> Self { Query { world: world as *mut World, _p: PhantomData } }
+    #[doc(hidden)] pub fn verif_new(world: &'w mut World) -> Self { Query { world: world as *mut World, single: None, _p: PhantomData } }
+    /// Verification aid: a query over a 'world' in which exactly `e` carries the component `*c` (or nobody, for `None`);
+    /// avoids the type-erased component storage (CBMC cost). Only `get`/`get_mut`/`contains` are meaningful on it.
+    #[doc(hidden)] pub fn verif_single(e: Entity, c: Option<&'w mut D::Comp>) -> Self {
+        Query { world: core::ptr::null_mut(), single: Some((e, match c { Some(c) => c as *mut D::Comp, None => core::ptr::null_mut() })), _p: PhantomData }
+    }
     pub fn get(&self, e: Entity) -> Result<<D::ReadOnly as QueryData>::Item<'_>, ecs::query::QueryEntityError<'static>> {
+        if let Some((se, p)) = self.single {
+            return if se == e && !p.is_null() { Ok(unsafe { <D::ReadOnly as QueryData>::from_ptr(p, e) }) } else { Err(ecs::query::QueryEntityError::NoSuchEntity(e, PhantomData)) };
+        }
         unsafe { <D::ReadOnly as QueryData>::fetch(self.world, e) }.ok_or(ecs::query::QueryEntityError::NoSuchEntity(e, PhantomData))
     }
     pub fn get_mut(&mut self, e: Entity) -> Result<D::Item<'_>, ecs::query::QueryEntityError<'static>> {
+        if let Some((se, p)) = self.single {
+            return if se == e && !p.is_null() { Ok(unsafe { D::from_ptr(p, e) }) } else { Err(ecs::query::QueryEntityError::NoSuchEntity(e, PhantomData)) };
+        }
         unsafe { D::fetch(self.world, e) }.ok_or(ecs::query::QueryEntityError::NoSuchEntity(e, PhantomData))
     }
-    pub fn contains(&self, e: Entity) -> bool { unsafe { (*self.world).get::<D::Comp>(e).is_some() } }
+    pub fn contains(&self, e: Entity) -> bool { if let Some((se, p)) = self.single { return se == e && !p.is_null(); } unsafe { (*self.world).get::<D::Comp>(e).is_some() } }
     fn only(&self) -> Entity {
         let w = unsafe { &*self.world };
         let mut found = None;
@@ -694,7 +728,7 @@ unsafe impl<D: QueryData + 'static, F: 'static> SystemParam for Query<'_, '_, D,
     type State = ();
     type Item<'w, 's> = Query<'w, 's, D, F>;
     fn init_state(_: &mut World) {}
-    unsafe fn get_param<'w, 's>(_: &'s mut (), world: ecs::world::unsafe_world_cell::UnsafeWorldCell<'w>) -> Query<'w, 's, D, F> { Query { world: world.world, _p: PhantomData } }
+    unsafe fn get_param<'w, 's>(_: &'s mut (), world: ecs::world::unsafe_world_cell::UnsafeWorldCell<'w>) -> Query<'w, 's, D, F> { Query { world: world.world, single: None, _p: PhantomData } }
 }
 
 /// `RemovedComponents<T>`: event-reader semantics over the world's removal log (one cursor per system instance).
